@@ -367,3 +367,198 @@ Proof.
   - intros l0 r0. destruct Hop as [[-> ->] | [[-> ->] | [-> ->]]]; reflexivity.
   - intros l0 r0. destruct Hop as [[-> ->] | [[-> ->] | [-> ->]]]; reflexivity.
 Qed.
+
+Lemma M_concat l r : M l -> M r -> M (EBinary BConcat l r).
+Proof.
+  intros Ml Mr k pc rest R Hf Ho Hpc HF.
+  cbn [fits] in Hf. destruct Hf as (Hk & Fl & Fr & Hcs & Hc9 & Okl).
+  ok_split Ho Hc Okr. cbn [ret_lvl] in HF. cbn [flat binop_tok app]. rewrite <- app_assoc.
+  destruct (pf_inv _ _ _ _ _ _ HF ltac:(cbn; lia)) as (l' & e1 & ts1 & Hl' & HA & HF').
+  cbn in Hl'. injection Hl' as <-.
+  pose proof (flat_start _ _ _ Fr) as Hst.
+  assert (Hhd : hd_tok (flat r ++ rest) = first_tok r) by (apply hd_tok_app; exact Hst).
+  apply Ml; try assumption.
+  - eapply fits_mono; [exact Fl | exact Hk].
+  - rewrite Hhd. exact Okl.
+  - eapply pf_skip with (l1 := LAdd).
+    + apply reach_of_rank; [apply (fits_ret_left pc 8); [assumption | unfold loop_rank; lia]|].
+      intros _. split; [apply ret_not_getline | congruence].
+    + rewrite Hhd. cbn [rk]. exact Hc9.
+    + eapply PF_step; [reflexivity | | exact HF'].
+      destruct (start_cons _ Hst) as (t0 & r0 & Efl & _).
+      assert (Ecs : concat_start t0 = true) by (unfold first_tok in Hcs; rewrite Efl in Hcs; exact Hcs).
+      rewrite Efl. cbn [app].
+      eapply aft_loop_concat; [exact Ecs | | exact HA].
+      change (t0 :: r0 ++ rest) with ((t0 :: r0) ++ rest). rewrite <- Efl.
+      apply (M_closed _ Mr); try assumption; [congruence | destruct pc; exact Hc].
+Qed.
+
+Lemma M_in1 x a : M x -> M (EIn [x] a).
+Proof.
+  intros Mx k pc rest R Hf Ho Hpc HF.
+  cbn [fits] in Hf. destruct Hf as (Hk & Fx & Okx).
+  cbn [ret_lvl] in HF. cbn [flat]. rewrite <- app_assoc. cbn [app].
+  destruct (pf_inv _ _ _ _ _ _ HF ltac:(cbn; lia)) as (l' & e1 & ts1 & Hl' & HA & HF').
+  cbn in Hl'. injection Hl' as <-.
+  apply Mx; try assumption.
+  - eapply fits_mono; [exact Fx | exact Hk].
+  - eapply pf_skip with (l1 := LMatch).
+    + apply reach_of_rank; [apply (fits_ret_left pc 5); [assumption | unfold loop_rank; lia]|].
+      intros _. split; [apply ret_not_getline | congruence].
+    + cbn. lia.
+    + eapply PF_step; [reflexivity | | exact HF'].
+      apply aft_loop_in. exact HA.
+Qed.
+
+Lemma M_pow l r : M l -> M r -> M (EBinary BPow l r).
+Proof.
+  intros Ml Mr k pc rest R Hf Ho Hpc HF.
+  cbn [fits] in Hf. destruct Hf as (Hk & Fl & Okl & Fr).
+  ok_split Ho Hc Okr. cbn [ret_lvl] in HF. cbn [flat binop_tok app]. rewrite <- app_assoc. cbn [app].
+  apply Ml; try assumption.
+  - eapply fits_mono; [exact Fl | lia].
+  - eapply pf_skip with (l1 := LPostIncr).
+    + apply reach_of_rank; [eapply fits_ret; [cbn; lia|exact Fl]|].
+      intros _. split; [apply ret_not_getline | congruence].
+    + cbn. lia.
+    + eapply PF_step; [reflexivity | | exact HF].
+      apply aft_pow. apply (M_closed _ Mr); try assumption; [congruence | destruct pc; exact Hc].
+Qed.
+
+Lemma M_cmp op t l r : cmp_op false t = Some op -> binop_tok op = [t] ->
+  M l -> M r -> M (EBinary op l r).
+Proof.
+  intros Hop Htk Ml Mr k pc rest R Hf Ho Hpc HF.
+  assert (Hf' : rk k <= 7 /\ (pc = true -> op <> BGt) /\ fits pc 8 l /\ ok pc l (hd_tok (binop_tok op)) = true /\ fits pc 8 r)
+    by (destruct t; cbn in Hop; try discriminate; injection Hop as <-; exact Hf).
+  destruct Hf' as (Hk & Hgt & Fl & Okl & Fr).
+  assert (Ho' : tok_cont pc (hd_tok rest) <= 8 /\ ok pc r (hd_tok rest) = true).
+  { destruct t; cbn in Hop; try discriminate; injection Hop as <-; ok_split Ho H1 H2;
+      (split; [destruct pc; exact H1 | exact H2]). }
+  destruct Ho' as (Hc & Okr).
+  assert (Hret : ret_lvl (EBinary op l r) = LCompare)
+    by (destruct t; cbn in Hop; try discriminate; injection Hop as <-; reflexivity).
+  rewrite Hret in HF. cbn [flat]. rewrite Htk. cbn [app]. rewrite <- app_assoc. cbn [app].
+  assert (Hcp : cmp_op pc t = Some op).
+  { destruct pc; [|exact Hop]. destruct t; cbn in Hop |- *; try discriminate; try exact Hop.
+    injection Hop as <-. exfalso. apply Hgt; reflexivity. }
+  assert (Hct : tok_cont pc t = 8).
+  { destruct t; cbn in Hop; try discriminate; try reflexivity.
+    destruct pc; [|reflexivity]. cbn in Hcp. discriminate. }
+  apply Ml; try assumption.
+  - eapply fits_mono; [exact Fl | lia].
+  - rewrite Htk in Okl. exact Okl.
+  - eapply pf_skip with (l1 := LConcat).
+    + apply reach_of_rank; [eapply fits_ret; [cbn; lia|exact Fl]|].
+      intros _. split; [apply ret_not_getline | congruence].
+    + cbn [hd_tok rk]. lia.
+    + eapply PF_step; [reflexivity | | exact HF].
+      apply (aft_cmp pc l t op (flat r ++ rest) r rest Hcp).
+      apply (M_closed _ Mr); try assumption. congruence.
+Qed.
+
+Lemma M_match op t l r : (op = BMatch /\ t = TMatch \/ op = BNotMatch /\ t = TNotMatch) ->
+  M l -> M r -> M (EBinary op l r).
+Proof.
+  intros Hop Ml Mr k pc rest R Hf Ho Hpc HF.
+  assert (Hf' : rk k <= 6 /\ fits pc 7 l /\ ok pc l TMatch = true /\
+                match r with EStrRegex _ => True | _ => fits pc 7 r /\ not_regex_start r end)
+    by (destruct Hop as [[-> ->] | [-> ->]]; exact Hf).
+  destruct Hf' as (Hk & Fl & Okl & Fr).
+  assert (Ho' : tok_cont pc (hd_tok rest) <= 7 /\ ok pc r (hd_tok rest) = true).
+  { destruct Hop as [[-> ->] | [-> ->]]; ok_split Ho H1 H2; (split; [destruct pc; exact H1 | exact H2]). }
+  destruct Ho' as (Hc & Okr).
+  assert (Hret : ret_lvl (EBinary op l r) = LMatch) by (destruct Hop as [[-> ->] | [-> ->]]; reflexivity).
+  assert (Hfl : flat (EBinary op l r) = flat l ++ t :: flat r) by (destruct Hop as [[-> ->] | [-> ->]]; reflexivity).
+  rewrite Hret in HF. rewrite Hfl, <- app_assoc. cbn [app].
+  apply Ml; try assumption.
+  - eapply fits_mono; [exact Fl | lia].
+  - rewrite <- Okl. apply ok_same_cont; destruct Hop as [[-> ->] | [-> ->]]; reflexivity.
+  - eapply pf_skip with (l1 := LCompare).
+    + apply reach_of_rank; [eapply fits_ret; [cbn; lia|exact Fl]|].
+      intros _. split; [apply ret_not_getline | congruence].
+    + destruct Hop as [[-> ->] | [-> ->]]; cbn; lia.
+    + eapply PF_step; [reflexivity | | exact HF].
+      assert (HR : RegexStr LCompare pc (flat r ++ rest) (r, rest)).
+      { destruct r; try (destruct Fr as [Fr Hnr]; apply regex_str_expr;
+          [ pose proof (flat_start _ _ _ Fr) as Hst; unfold not_regex_start in Hnr;
+            destruct (start_cons _ Hst) as (t0 & r0 & E0 & _); unfold first_tok in Hnr; rewrite E0 in *;
+            cbn [app hd_tok] in *; destruct t0; try exact I; contradiction
+          | apply (M_closed _ Mr); try assumption; congruence ]).
+        cbn [flat app]. apply regex_str_lit. }
+      destruct Hop as [[-> ->] | [-> ->]]; [apply aft_match | apply aft_notmatch]; exact HR.
+Qed.
+
+Lemma M_cond c t f : M c -> M t -> M f -> M (ECond c t f).
+Proof.
+  intros Mc Mt Mf k pc rest R Hf Ho Hpc HF.
+  cbn [fits] in Hf. destruct Hf as (Hk & Fc & Okc & Ft & Ff).
+  ok_split Ho Hc Okf. cbn [ret_lvl] in HF. cbn [flat]. rewrite <- app_assoc. cbn [app].
+  apply Mc; try assumption.
+  - eapply fits_mono; [exact Fc | lia].
+  - eapply pf_skip with (l1 := LOr).
+    + apply reach_of_rank; [eapply fits_ret; [cbn; lia|exact Fc]|].
+      intros _. split; [apply ret_not_getline | congruence].
+    + cbn. lia.
+    + eapply PF_step; [reflexivity | | exact HF].
+      pose proof (flat_start _ _ _ Ft) as Hst. pose proof (flat_start _ _ _ Ff) as Hsf.
+      rewrite <- app_assoc. cbn [app].
+      eapply aft_cond.
+      * rewrite start_skip_nl by exact Hst.
+        apply (M_closed _ Mt LExpr false); try assumption; try discriminate.
+        -- apply ok_zero. reflexivity.
+        -- cbn. lia.
+      * rewrite start_skip_nl by exact Hsf.
+        apply (M_closed _ Mf LExpr false); try assumption; try discriminate.
+Qed.
+
+Lemma is_lvalue_ret l : is_lvalue l = true -> ret_lvl l = LPrimary.
+Proof. destruct l; cbn; try discriminate; reflexivity. Qed.
+
+Lemma M_assign_gen e l r t aop :
+  flat e = flat l ++ t :: flat r -> assign_op t = Some aop -> e = make_assign l aop r ->
+  (forall pc k, fits pc k e -> k = 0 /\ is_lvalue l = true /\ fits pc 1 l /\ ok pc l TAssign = true /\ fits pc 0 r) ->
+  (forall pc t', ok pc e t' = true -> tok_cont pc t' <= 0 /\ ok pc r t' = true) ->
+  ret_lvl e = LExpr ->
+  M l -> M r -> M e.
+Proof.
+  intros Hfl Hop He Hfits Hoks Hret Ml Mr k pc rest R Hf Ho Hpc HF.
+  apply Hfits in Hf as (Hk & Hlv & Fl & Okl & Fr). apply Hoks in Ho as (Hc & Okr).
+  assert (k = LExpr) by (destruct k; cbn in Hk; try lia; reflexivity). subst k.
+  rewrite Hret in HF. apply pf_same in HF. subst R.
+  rewrite Hfl, <- app_assoc. cbn [app].
+  assert (Hct : tok_cont pc t = 1) by (destruct t; cbn in Hop; try discriminate; reflexivity).
+  apply Ml; try assumption.
+  - eapply fits_mono; [exact Fl | cbn; lia].
+  - rewrite <- Okl. apply ok_same_cont; destruct t; cbn in Hop; try discriminate; reflexivity.
+  - rewrite (is_lvalue_ret _ Hlv).
+    eapply pf_skip with (l1 := higher pc LExpr).
+    + apply reach_of_rank; [destruct pc; cbn; lia|]. intros ->. cbn. split; congruence.
+    + cbn [hd_tok]. rewrite Hct. destruct pc; cbn; lia.
+    + eapply PF_step; [destruct pc; reflexivity | | apply PF_done].
+      rewrite He. apply aft_assign; [exact Hop | exact Hlv |].
+      apply (M_closed _ Mr LExpr); assumption.
+Qed.
+
+Lemma M_assign l r : M l -> M r -> M (EAssign l r).
+Proof.
+  apply (M_assign_gen (EAssign l r) l r TAssign AsgPlain); try reflexivity.
+  - intros pc k H. exact H.
+  - intros pc t' H. ok_split H H1 H2. split; [destruct pc; exact H1 | exact H2].
+Qed.
+
+Lemma M_augassign op l r : M l -> M r -> M (EAugAssign op l r).
+Proof.
+  intros Ml Mr k pc rest R Hf. revert k pc rest R Hf.
+  change (forall k pc rest R, fits pc (rk k) (EAugAssign op l r) -> _) with
+    (forall k pc rest R, fits pc (rk k) (EAugAssign op l r) ->
+       ok pc (EAugAssign op l r) (hd_tok rest) = true -> (pc = true -> k <> LGetline) ->
+       PF pc k (ret_lvl (EAugAssign op l r)) (EAugAssign op l r) rest R ->
+       Parses k pc None (flat (EAugAssign op l r) ++ rest) R).
+  intros k pc rest R Hf.
+  assert (Hop : assign_op (aug_tok op) = Some (AsgAug op)) by (cbn [fits] in Hf; apply Hf).
+  revert k pc rest R Hf.
+  apply (M_assign_gen (EAugAssign op l r) l r (aug_tok op) (AsgAug op)); try reflexivity; try assumption.
+  - intros pc k H. cbn [fits] in H. intuition.
+  - intros pc t' H. ok_split H H1 H2. split; [destruct pc; exact H1 | exact H2].
+Qed.
